@@ -39,6 +39,14 @@ func c01cluster(c *h.Ctx, cs *h.Case) {
 		cl.Close()
 	}()
 	fix.ResetRecs()
+	fix.Prepare = func(rec *fix.Rec) {
+		rec.OnEnter = func(d fix.Delivery) {
+			if d.Ty == 3 && len(d.Items) == 1 && d.Items[0].V%4 == 0 {
+				time.Sleep(400 * time.Microsecond)
+			}
+		}
+	}
+	defer func() { fix.Prepare = nil }()
 	trees := []*onet.Tree{cl.Roster.GenerateNaryTree(2), cl.Roster.GenerateNaryTree(3), cl.Roster.GenerateStar()}
 	type want struct{ tok string }
 	var mu sync.Mutex
@@ -135,6 +143,26 @@ func c01cluster(c *h.Ctx, cs *h.Case) {
 					mu.Lock()
 					errs = append(errs, fmt.Sprintf("run %d: send %d: %v", run, v, err))
 					mu.Unlock()
+				}
+			}
+			// a burst towards one instance whose handler is slow: a backlog builds up behind the running
+			// handler while more messages keep arriving (each must still be handled exactly once)
+			if len(nodes) > 1 {
+				src := tree.Root
+				dst := nodes[1+r.Intn(len(nodes)-1)]
+				if rec := fix.RecOf(tokOf(src)); rec != nil {
+					for b := 0; b < 24; b++ {
+						v := nextVal()
+						expect(dst, v)
+						if err := rec.Tni.SendTo(dst, &fix.M3{V: v}); err != nil {
+							mu.Lock()
+							errs = append(errs, fmt.Sprintf("run %d: burst send %d: %v", run, v, err))
+							mu.Unlock()
+						}
+						if b%6 == 5 {
+							time.Sleep(300 * time.Microsecond)
+						}
+					}
 				}
 			}
 		}(run)
